@@ -320,11 +320,11 @@ func neutralise(files map[string]string, root string, cfg gen.Cfg) (map[string]s
 
 func checkC14(replay string) {
 	r := base.NewRun("C14")
-	r.Rule = "programs mixing regular, in-package and external _test.go files and files whose names contain exclude-paths tokens (with annotated types, @ignore comments and violations inside them), under scan-tests {off,on} x exclude-paths {empty, default, one token, three tokens}: (1) no diagnostic lies in a file excluded by the reference filter, (2) the diagnostics of the other files equal those of the same program with every annotation/@ignore in excluded files neutralised, (3) every line is judged by the reference model (test files: like any file under scan-tests, never TONL); distinct = (program, configuration) pairs in which at least one file was excluded and at least one diagnostic compared"
-	nProg := r.Pick(16, 300)
+	r.Rule = "programs mixing regular, in-package and external _test.go files and files whose names contain exclude-paths tokens (with annotated types, @ignore comments and violations inside them), under scan-tests {off,on} x exclude-paths {empty, default, one token, three tokens, entries containing path separators}: (1) no diagnostic lies in a file excluded by the reference filter, (2) the diagnostics of the other files equal those of the same program with every annotation/@ignore in excluded files neutralised, (3) every line is judged by the reference model (test files: like any file under scan-tests, never TONL); distinct = (program, configuration) pairs in which at least one file was excluded and at least one diagnostic compared"
+	nProg := r.Pick(12, 300)
 	cfgs := []gen.Cfg{}
 	for _, st := range []bool{false, true} {
-		for _, ep := range [][]string{{}, {"testdata"}, {"gen_legacy"}, {"zz_skip", "gen_legacy", "testdata"}} {
+		for _, ep := range [][]string{{}, {"testdata"}, {"gen_legacy"}, {"zz_skip", "gen_legacy", "testdata"}, {"u1/gen_legacy", "zz_skip_pkg/", "/d0/gen_"}} {
 			cfgs = append(cfgs, gen.Cfg{ScanTests: st, ExcludePaths: ep})
 		}
 	}
